@@ -134,9 +134,15 @@ def run_inst(spec, run):
             run.obligation(ctx, "equation-bounds-exact", z3.Or(ev), conc)
         env_ = res["env"]
         ext = [v.e == plh.LO16 for k, v in env_.items() if k.startswith("lo_")] + [v.e == plh.HI16 for k, v in env_.items() if k.startswith("hi_")]
-        run.validate(ctx, conc, lambda m: {"flags": {f["id"]: {"taut": bool(f["taut"]), "contr": bool(f["contr"]),
-                                                            "eqb": [S.model_int(m, f["eqb"][0]), S.model_int(m, f["eqb"][1])]} for f in res["flags"]}},
-                     extremes=z3.Or(ext) if ext else None)
+        def predict(m):
+            fl = {f["id"]: {"taut": bool(f["taut"]), "contr": bool(f["contr"]),
+                            "eqb": [S.model_int(m, f["eqb"][0]), S.model_int(m, f["eqb"][1])]} for f in res["flags"]}
+            if ctx.str_calls:
+                # some id on this path was generated from a symbolic threshold (negation of a node with mixed children builds an inner node whose
+                # generated id contains str(value)): SX's id is a structural token (M5), not the real digest, so compare id-free
+                return {"flags_multiset": sorted(([v["taut"], v["contr"], v["eqb"]] for v in fl.values()), key=repr)}
+            return {"flags": fl}
+        run.validate(ctx, conc, predict, extremes=z3.Or(ext) if ext else None)
         run.sample({"model": pl.show(model_spec), "part": "flags", "path_condition": [str(z3.simplify(c)) for c in ctx.pc][:6]})
 
     def on_path(ctx, res):
